@@ -349,49 +349,77 @@ def main():
         ("percall", dict(backend="local", block_allocation=False, max_cores=3)),
         ("percall_nodeps", dict(backend="local", block_allocation=False, max_workers=2, disable_dependencies=True)),
     ]
+    import tempfile as _tf
+
+    # the same differential with a cache directory: every call its own value (the cache only adds a way to go wrong)
+    modes.append(("block1_cache", dict(backend="local", block_allocation=True, max_workers=1, cache_directory=_tf.mkdtemp(prefix="vh_rich_"))))
     per_mode = max(4, n // len(modes))
     for mname, kw in modes:
-        with executorlib.Executor(**kw) as exe:
-            res["pin_workers"].append(exe.submit(where).result(timeout=60))
-            batch = []
-            for c in range(per_mode):
-                tag = "%s-%d-%d" % (mname, seed, c)
-                kind, fn = make_callable(rng, tag)
-                args = tuple(gen_value(rng) for _ in range(rng.randrange(0, 3)))
-                kwargs = {"kw%d" % i: gen_value(rng) for i in range(rng.randrange(0, 3))}
-                # only values that survive a pickle round trip are in the property's quantifier
-                import cloudpickle
+        try:
+            with executorlib.Executor(**kw) as exe:
+                res["pin_workers"].append(exe.submit(where).result(timeout=60))
+                batch = []
+                for c in range(per_mode):
+                    tag = "%s-%d-%d" % (mname, seed, c)
+                    kind, fn = make_callable(rng, tag)
+                    args = tuple(gen_value(rng) for _ in range(rng.randrange(0, 3)))
+                    kwargs = {"kw%d" % i: gen_value(rng) for i in range(rng.randrange(0, 3))}
+                    # only values that survive a pickle round trip are in the property's quantifier
+                    import cloudpickle
 
-                try:
-                    cloudpickle.loads(cloudpickle.dumps((fn, args, kwargs)))
-                except Exception:  # noqa
-                    continue
-                batch.append((tag, kind, fn, args, kwargs, exe.submit(fn, *args, **kwargs)))
-            # completion in arbitrary order; collect in reverse submission order
-            for tag, kind, fn, args, kwargs, fut in reversed(batch):
-                try:
-                    got = canon(fut.result(timeout=120))
-                except Exception as e:  # noqa
-                    got = ("EXC", type(e).__name__, repr(e)[:200])
-                try:
-                    want = canon(fn(*args, **kwargs))
-                except Exception as e:  # noqa
-                    want = ("EXC", type(e).__name__, repr(e)[:200])
-                ok = json.dumps(got, sort_keys=True, default=str) == json.dumps(want, sort_keys=True, default=str)
-                rec = {"mode": mname, "kind": kind, "tag": tag, "ok": ok,
-                       "shape": [type(a).__name__ for a in args] + sorted(kwargs)}
-                if not ok:
+                    try:
+                        cloudpickle.loads(cloudpickle.dumps((fn, args, kwargs)))
+                    except Exception:  # noqa
+                        continue
+                    batch.append((tag, kind, fn, args, kwargs, exe.submit(fn, *args, **kwargs)))
+                # completion in arbitrary order; collect in reverse submission order
+                import concurrent.futures as _cf2
+
+                npend = 0
+                for tag, kind, fn, args, kwargs, fut in reversed(batch):
+                    try:
+                        got = canon(fut.result(timeout=60 if npend < 2 else 1))
+                    except _cf2.TimeoutError:
+                        npend += 1
+                        got = ("PENDING", "the future did not finish")
+                    except Exception as e:  # noqa
+                        got = ("EXC", type(e).__name__, repr(e)[:200])
+                    try:
+                        want = canon(fn(*args, **kwargs))
+                    except Exception as e:  # noqa
+                        want = ("EXC", type(e).__name__, repr(e)[:200])
+                    ok = json.dumps(got, sort_keys=True, default=str) == json.dumps(want, sort_keys=True, default=str)
+                    rec = {"mode": mname, "kind": kind, "tag": tag, "ok": ok,
+                           "shape": [type(a).__name__ for a in args] + sorted(kwargs)}
+                    if not ok:
+                        rec["got"], rec["want"] = got, want
+                    res["cases"].append(rec)
+                # the same keywords in another order are another call (the order is visible to the function: PEP 468)
+                kws = {"create": 1, "file": "a.tar", "level": rng.randrange(9)}
+                for order in (list(kws), list(reversed(list(kws))), list(kws)):
+                    kk = {k: kws[k] for k in order}
+                    try:
+                        got = canon(exe.submit(module_level, "kworder-" + mname, **kk).result(timeout=120 if npend == 0 else 2))
+                    except Exception as e:  # noqa
+                        got = ("EXC", type(e).__name__, repr(e)[:200])
+                    want = canon(module_level("kworder-" + mname, **kk))
+                    okk = json.dumps(got, default=str) == json.dumps(want, default=str)
+                    rec = {"mode": mname, "kind": "keyword_order", "tag": "kworder-%s-%s" % (mname, "".join(o[0] for o in order)), "ok": okk, "shape": order}
+                    if not okk:
+                        rec["got"], rec["want"] = got, want
+                    res["cases"].append(rec)
+                # map(): results in input order
+                xs = [rng.randrange(0, 1000) for _ in range(rng.randrange(2, 7))]
+                off = rng.randrange(0, 100)
+                got = list(exe.map(lambda x: (x, x * 2 + off), xs, timeout=120 if npend == 0 else 3)) if npend == 0 else ["not run: earlier futures of this executor are pending"]
+                want = [(x, x * 2 + off) for x in xs]
+                rec = {"mode": mname, "kind": "map", "tag": "map-%s" % mname, "ok": got == want, "shape": ["int"] * len(xs)}
+                if got != want:
                     rec["got"], rec["want"] = got, want
                 res["cases"].append(rec)
-            # map(): results in input order
-            xs = [rng.randrange(0, 1000) for _ in range(rng.randrange(2, 7))]
-            off = rng.randrange(0, 100)
-            got = list(exe.map(lambda x: (x, x * 2 + off), xs))
-            want = [(x, x * 2 + off) for x in xs]
-            rec = {"mode": mname, "kind": "map", "tag": "map-%s" % mname, "ok": got == want, "shape": ["int"] * len(xs)}
-            if got != want:
-                rec["got"], rec["want"] = got, want
-            res["cases"].append(rec)
+        except BaseException as e:  # noqa  (leaving the block re-raises what killed a worker thread)
+            res["cases"].append({"mode": mname, "kind": "executor_block", "tag": "exit-" + mname, "ok": False, "shape": [],
+                                 "got": ("EXC", type(e).__name__, repr(e)[:300]), "want": "the with-block ends normally"})
     # short-lived callables through ONE long-lived worker connection: each is created, submitted, awaited and dropped before the
     # next exists, so object addresses repeat (closures, bound methods, functools.partial objects)
     import functools
